@@ -81,6 +81,9 @@ def _arg_for(rng, ref, name):
     cands = [ref.clock, ref.end]
     for t in times[:4]:
         cands += [t, t + 0.25, t - 0.25]
+        if isinstance(t, float):
+            import math as _m
+            cands += [_m.nextafter(t, _m.inf), _m.nextafter(t, -_m.inf)]
     cands = [t for t in cands if ref.clock <= t <= ref.end]
     t = rng.choice(cands) if cands else ref.clock
     if name == "run_up_to" and t >= ref.end:
